@@ -96,6 +96,8 @@ type proc struct {
 	sessions map[string]*appencryption.Session
 	sessID   map[string]int
 	done     chan opResult
+	parked   *fakes.Call // external call the process is parked at (nil: not known yet)
+	finished *opResult   // result of the operation if it has already returned
 	busy     bool
 	opSeq    int
 	curOp    string
@@ -278,6 +280,22 @@ func (r *runner) startOp(p *proc, st Step) {
 	}()
 }
 
+// settleProc blocks until the process has reached its next external call or returned, so that everything the real
+// code does between two external calls happens before the driver's next action (clock tick, other process, ...).
+func (r *runner) settleProc(p *proc) {
+	if !p.busy || p.parked != nil || p.finished != nil {
+		return
+	}
+	c, res := r.next(p)
+	p.parked, p.finished = c, res
+}
+
+// release lets the parked call proceed and waits for the process to settle again.
+func (r *runner) release(p *proc, c *fakes.Call, fault string) {
+	c.Release(fault)
+	r.settleProc(p)
+}
+
 func deepCopy(d appencryption.DataRowRecord) appencryption.DataRowRecord {
 	c := appencryption.DataRowRecord{Data: append([]byte(nil), d.Data...)}
 	if d.Key != nil {
@@ -300,6 +318,16 @@ func sameDRR(a, b appencryption.DataRowRecord) bool {
 
 // next waits until the process either parks at an external call or finishes its operation.
 func (r *runner) next(p *proc) (*fakes.Call, *opResult) {
+	if p.parked != nil {
+		c := p.parked
+		p.parked = nil
+		return c, nil
+	}
+	if p.finished != nil {
+		res := p.finished
+		p.finished = nil
+		return nil, res
+	}
 	select {
 	case c := <-p.gate.Pending:
 		return c, nil
@@ -319,7 +347,7 @@ func (r *runner) finishOp(p *proc, exp *Step, first *opResult) {
 			if exp != nil {
 				r.drift = append(r.drift, fmt.Sprintf("%s: real code makes an extra external call %s(%s) the model does not", p.curOp, c.Kind, c.ID))
 			}
-			c.Release("none")
+			r.release(p, c, "none")
 			continue
 		}
 		res = rr
@@ -487,6 +515,7 @@ func Run(c *Case, opt Options) (events []fakes.Event, drift []string, fatal stri
 					r.finishOp(p, nil, nil)
 				}
 				r.startOp(p, st)
+				r.settleProc(p)
 			case "CloseSession":
 				p := r.procs[st.P]
 				if s, ok := p.sessions[st.Part]; ok {
@@ -515,7 +544,7 @@ func Run(c *Case, opt Options) (events []fakes.Event, drift []string, fatal stri
 			if opt.Strict && c.Kind != st.Kind {
 				r.drift = append(r.drift, fmt.Sprintf("%s: real call %s(%s), model %s(%s)", p.curOp, c.Kind, c.ID, st.Kind, st.K))
 			}
-			c.Release(st.Fault)
+			r.release(p, c, st.Fault)
 		case "ret":
 			p := r.procs[st.P]
 			if !p.busy {
